@@ -161,6 +161,37 @@ int main(int argc, char** argv) {
             o.key("coupled").b(coupled);
             double others = 0; for (size_t i = 1; i < cell_tester::nodes(*c1).size(); i++) others = std::max(others, cell_tester::nodes(*c1)[i].force().norm() / norm);
             o.key("others").d(others);
+        } else if (mode == "phases") {
+#if CONTACT_MODEL_INDEX == 1
+            // spec/Contact/Coupling starts every contact phase from Fresh: two whole contact phases (model::run) on the same two
+            // epithelial cells; between them cell B shrinks (its node curvature rises above the coupling threshold) and moves far away.
+            // Whatever was coupled in the first phase must be forgotten in the second.
+            auto PA = C["posA"].dvec(), PB = C["posB"].dvec();
+            for (auto& x : PA) x *= u; for (auto& x : PB) x *= u;
+            cell_ptr cA = make_cell(PA, {0, 1, 2, 0, 3, 1, 1, 3, 2, 2, 3, 0}, 0, 0);
+            cell_ptr cB = make_cell(PB, {0, 2, 1, 0, 1, 3, 1, 2, 3, 2, 0, 3}, 1, 0);
+            std::vector<cell_ptr> L = {cA, cB};
+            zero(L);
+            double kmax = 0; for (auto& c : L) for (auto& n : cell_tester::nodes(*c)) kmax = std::max(kmax, std::fabs(n.get_curvature()));
+            for (auto& c : L) cell_tester::cell_type(*c)->surface_coupling_max_curvature_ = C["thr"].d() * kmax;
+            const double cut = std::sqrt(C["cut2"].d()) * u;
+            open_model mdl(params(u, cut, 0.25 * cut));
+            mdl.run(L);
+            long first = 0; for (auto& c : L) for (auto& n : cell_tester::nodes(*c)) if (n.is_coupled()) first++;
+            // cell B: shrink about its first node by `shrink`, then move by `away` lattice units along x
+            auto& NB = cell_tester::nodes(*cB);
+            const vec3 o0 = NB[0].pos(); const double sh = C["shrink"].d(), away = C["away"].d() * u;
+            for (auto& n : NB) cell_tester::pos(n) = o0 + (n.pos() - o0) * (1. / sh) + vec3(away, 0, 0);
+            for (auto& c : L) { c->update_all_face_normals_and_areas(); c->compute_node_curvature_and_normals(); }
+            double kB = 0; for (auto& n : NB) kB = std::max(kB, std::fabs(n.get_curvature()));
+            std::vector<vec3> before; for (auto& c : L) for (auto& n : cell_tester::nodes(*c)) before.push_back(n.pos());
+            zero(L);
+            mdl.run(L);
+            long second = 0; bool moved = false; size_t q = 0;
+            for (auto& c : L) for (auto& n : cell_tester::nodes(*c)) { if (n.is_coupled()) second++; if (!(n.pos() == before[q++])) moved = true; }
+            double fmax = 0; for (auto& c : L) for (auto& n : cell_tester::nodes(*c)) fmax = std::max(fmax, n.force().norm());
+            o.key("first_coupled").i(first).key("second_coupled").i(second).key("moved").b(moved).key("force_free").b(fmax == 0.).key("above_threshold").b(kB > C["thr"].d() * kmax);
+#endif
         } else if (mode == "coupling") {
 #if CONTACT_MODEL_INDEX == 1
             // spec/Contact/CouplingRule: two tetrahedra (nodes 1..4 and 5..8 of the specification), a sequence of presentations
